@@ -933,10 +933,11 @@ func fromIdentity(i *Identity) *schemahcl.Resource {
 		},
 	}
 	if s := i.Sequence; s != nil {
-		if s.Start != 1 {
+		// Zero means "not set" and is treated as the default (see identity).
+		if s.Start != defaultSeqStart && s.Start != 0 {
 			id.Attrs = append(id.Attrs, schemahcl.Int64Attr("start", s.Start))
 		}
-		if s.Increment != 1 {
+		if s.Increment != defaultSeqIncrement && s.Increment != 0 {
 			id.Attrs = append(id.Attrs, schemahcl.Int64Attr("increment", s.Increment))
 		}
 	}
